@@ -57,7 +57,6 @@ func replayQ(in *core.Lines, args []string, seed int64, sum *core.Summary) error
 		if !c.Wtd {
 			kinds = []bool{false, true}
 		}
-		sum.Cases++
 		for _, wt := range kinds {
 			g := b.build(wt)
 			kind := strings.TrimPrefix(fmt.Sprintf("%T", g), "*")
@@ -84,6 +83,7 @@ func replayQ(in *core.Lines, args []string, seed int64, sum *core.Summary) error
 				var got float64
 				o := core.Call(func() { got = community.Q(g, comms, gamma) })
 				sum.Count("q_calls", 1)
+				sum.Cases++ // one case = one (graph, container, partition, resolution) evaluation of Q
 				if len(labels) > 1 && len(labels) < c.N {
 					sum.Nontrivial++
 				}
